@@ -25,6 +25,34 @@ TEXT = {
             "VecDeque/RefNat reference models, iter_u64_digits() as observation channel, x86_64 only",
             "deterministic simulation: seeded interleaving search of a two-ended iterator vs VecDeque model; perturbing byte/word transport",
             "DESIGN.md section 3, C09"),
+    "C04": ("seeded search over histories of public operations on a register file of live objects (the hidden state: capacity, stale digits, "
+            "buffer reuse, allocator contents); after every step all objects must be canonical and objects with equal denotation must be "
+            "indistinguishable (Eq, Ord, Hash, digit/byte/text exports), different ones ordered numerically; injected documented failures "
+            "under catch_unwind. Sampled, not exhaustive.",
+            "denote() via iter_u64_digits()+sign(); RefNat order; receiver of a panicked op is re-initialised; x86_64 only",
+            "deterministic simulation: seeded operation histories on a register file, canonical-form and indistinguishability invariants after every step",
+            "DESIGN.md section 3, C04"),
+    "C14": ("fault enumeration: the complete list of (operation form, documented-failure class) sites is executed at the end of sampled histories "
+            "in the debug and the release harness - must panic / checked variant must be None / negative sites must return; plus the complement "
+            "as exploration: size-swarm histories across all internal thresholds where every non-failure step must return. Panics, fatal signals "
+            "and hangs are observed by the supervisor. The site list is enumerated completely, operands are sampled.",
+            "expect() classification from reference denotations; supervisor (catch_unwind, signal handler, watchdog); memory-exhausting sizes skipped",
+            "deterministic simulation: fault-site enumeration (invalid operand = injected fault, panic = crash of the operation) + supervised size-swarm histories",
+            "DESIGN.md section 3, C14"),
+    "C15": ("the global allocator is simulated: every block alone on its pages, flush against a PROT_NONE page (end or start chosen per allocation "
+            "from the run PRNG), garbage-filled, realloc always moves, freed memory inaccessible, borrowed operands optionally read-only; the same "
+            "plan runs under the plain and the simulated allocator and the transcripts must agree; produced text is checked byte-wise. Inline "
+            "assembly is invisible to Miri/ASan, a page fault is not. Sampled, not exhaustive.",
+            "page-granular observation; Linux mmap/mprotect; asm operand declarations trusted",
+            "deterministic simulation: simulated guard-page allocator (placement/garbage/move faults) + allocator-independence of transcripts",
+            "DESIGN.md section 3, C15"),
+    "C16": ("build matrix: cargo check of every supported feature subset (16 with std, 4 without) in the dev profile plus release for three of them; "
+            "transcript equality: the harness is built against the library in {std,no_std} x {debug,release} and identical seeds must give "
+            "byte-identical per-run transcripts (every result digit, text, float bit pattern, None/panic flag). The build half is a plain compile "
+            "check; the value half is sampled.",
+            "cargo/rustc; only x86_64-unknown-linux-gnu installed; quickcheck/arbitrary arrivals excluded from transcripts (std-only)",
+            "deterministic simulation: identical seed-determined transcripts replayed in every build configuration + compile matrix",
+            "DESIGN.md section 3, C16"),
     "C17": ("both serde endpoints and the token transport between them are simulated; seeded search over values, construction routes, "
             "transport faults (padding, truncation, duplication, wide elements, EOF, lying size_hint, failing serializer/deserializer) with a "
             "token-level reference model and an allocation cap measured by the simulated allocator. Sampled, not exhaustive.",
